@@ -7,7 +7,7 @@
 (* window logic works on truncated milliseconds Ms(t)) and its receiver.   *)
 (*                                                                         *)
 (* Operational part (the reference model the property names):              *)
-(*   cache : frame -> sequence of receptions (the open group of the frame) *)
+(*   cache : open frames -> sequence of receptions (the frame's open group)*)
 (*   heap  : set of <<expiry ms, frame>>, one entry per open group         *)
 (*   Insert(r) ; Pop* : an arrival joins (or opens) the group of its frame,*)
 (*   then every entry whose expiry is <= the arrival's millisecond leaves, *)
@@ -27,8 +27,7 @@
 (***************************************************************************)
 EXTENDS Integers, Sequences, FiniteSets
 
-CONSTANTS Frames,        \* frame identifiers (integers)
-          Bad,           \* the undecodable ones, Bad \subseteq Frames
+CONSTANTS Bad,           \* the undecodable frames (frames are integers; every other frame is decodable)
           TicksPerMs,    \* timestamp resolution below the millisecond
           Mutant         \* "none" | "push_always" | "strict_lt" | "first_meta" | "min_ts"
 
@@ -50,17 +49,19 @@ MinOf(S) == CHOOSE x \in S : \A y \in S : x <= y
 (* ---------------------------------------------------------------------- *)
 (* operational model: pure state transformers (shared with the trace spec) *)
 (* ---------------------------------------------------------------------- *)
-EmptyCache == [f \in Frames |-> <<>>]
+EmptyCache == <<>>                                   \* function with empty domain
+Group(c, f) == IF f \in DOMAIN c THEN c[f] ELSE <<>>
 
-InsCache(c, r) == [c EXCEPT ![r.f] = Append(@, r)]
+InsCache(c, r) == [f \in DOMAIN c \cup {r.f} |-> IF f = r.f THEN Append(Group(c, f), r) ELSE c[f]]
 InsHeap(c, h, r, ww) ==
-  IF c[r.f] = <<>> \/ Mutant = "push_always" THEN h \cup {<<Expiry(r, ww), r.f>>} ELSE h
+  IF r.f \notin DOMAIN c \/ Mutant = "push_always" THEN h \cup {<<Expiry(r, ww), r.f>>} ELSE h
 
 Due(h, t) == {e \in h : IF Mutant = "strict_lt" THEN e[1] < t ELSE e[1] <= t}
-Poppable(h, t) == LET D == Due(h, t) IN {e \in D : \A g \in D : e[1] <= g[1]}
+Poppable(h, t) == LET D == Due(h, t) IN
+                  IF D = {} THEN {} ELSE LET m == MinOf({e[1] : e \in D}) IN {e \in D : e[1] = m}
 
-Silent(c, e) == c[e[2]] = <<>> \/ e[2] \in Bad      \* leaves without a record
-ClearCache(c, e) == [c EXCEPT ![e[2]] = <<>>]
+Silent(c, e) == e[2] \notin DOMAIN c \/ e[2] \in Bad      \* leaves without a record
+ClearCache(c, e) == [f \in DOMAIN c \ {e[2]} |-> c[f]]
 
 GroupIds(g) == {g[i].id : i \in DOMAIN g}
 RecordOf(g) ==
@@ -89,7 +90,7 @@ Insert(r) ==
 
 Pop ==
   \E e \in Poppable(heap, now) :
-     LET g == cache[e[2]] IN
+     LET g == Group(cache, e[2]) IN
      /\ heap' = heap \ {e}
      /\ cache' = ClearCache(cache, e)
      /\ IF g = <<>> THEN UNCHANGED <<out, dropped>>
@@ -109,23 +110,28 @@ Close == /\ Settled /\ now # INF /\ now' = INF
 (* design-level invariant                                                   *)
 (* ---------------------------------------------------------------------- *)
 HeapCacheAgree ==
-  /\ {e[2] : e \in heap} = {f \in Frames : cache[f] # <<>>}
-  /\ Cardinality(heap) = Cardinality({e[2] : e \in heap})
-  /\ \A e \in heap : cache[e[2]] # <<>> => e[1] = Expiry(cache[e[2]][1], w)
+  /\ {e[2] : e \in heap} = DOMAIN cache
+  /\ Cardinality(heap) = Cardinality(DOMAIN cache)
+  /\ \A f \in DOMAIN cache : cache[f] # <<>> /\ \A i \in DOMAIN cache[f] : cache[f][i].f = f
+  /\ \A e \in heap : e[2] \in DOMAIN cache => e[1] = Expiry(cache[e[2]][1], w)
 
 (* ---------------------------------------------------------------------- *)
 (* property level: operators over a history h, emitted records o, window ww *)
 (* ---------------------------------------------------------------------- *)
 Ids(rec) == {rec.m[i][1] : i \in DOMAIN rec.m}
 EmittedIds(o) == UNION {Ids(o[k]) : k \in DOMAIN o}
-OpenIds(c) == UNION {GroupIds(c[f]) : f \in Frames}
+OpenIds(c) == UNION {GroupIds(c[f]) : f \in DOMAIN c}
 Decodable(h) == {id \in DOMAIN h : h[id].f \notin Bad}
 
-(* no reception invented or duplicated (lost: see PropWindow / Conservation) *)
+(* no reception invented or duplicated (lost: see PropWindow / Conservation): *)
+(* as many distinct identifiers as member entries, all of them decodable     *)
+(* receptions of the history                                                  *)
+RECURSIVE Members(_, _)
+Members(o, k) == IF k = 0 THEN 0 ELSE Len(o[k].m) + Members(o, k - 1)
 PropConservation(h, o) ==
-  /\ \A i, j \in DOMAIN o : i < j => Ids(o[i]) \cap Ids(o[j]) = {}
-  /\ \A k \in DOMAIN o : Cardinality(Ids(o[k])) = Len(o[k].m)
-  /\ EmittedIds(o) \subseteq Decodable(h)
+  LET E == EmittedIds(o) IN
+  /\ Cardinality(E) = Members(o, Len(o))
+  /\ \A id \in E : id \in DOMAIN h /\ h[id].f \notin Bad
 
 (* a record carries the frame, the first arrival's timestamp, and its      *)
 (* members' receptions in arrival order                                    *)
@@ -144,10 +150,11 @@ PropShape(h, o) ==
 (* the first arrival s of f that is not in an earlier group; it closes at  *)
 (* the first arrival c >= s (of any frame) with Ms(t_c) >= Ms(t_s) + ww;   *)
 (* its members are the arrivals of f in s..c; c = 0: still open at the end *)
-CloseIdx(h, ww, s) ==
-  LET C == {j \in s..Len(h) : Ms(h[j].t) >= Ms(h[s].t) + ww}
+CloseIdx(h, ww, s) ==                      \* first arrival >= s whose ms reaches the expiry, else 0
+  LET lim == Ms(h[s].t) + ww
+      C == {j \in s..Len(h) : Ms(h[j].t) >= lim}
   IN IF C = {} THEN 0 ELSE MinOf(C)
-NextOf(h, f, c) ==
+NextOf(h, f, c) ==                         \* first arrival of frame f after position c, else 0
   LET S == {j \in (c + 1)..Len(h) : h[j].f = f}
   IN IF S = {} THEN 0 ELSE MinOf(S)
 RECURSIVE GroupsFrom(_, _, _, _)
@@ -157,7 +164,8 @@ GroupsFrom(h, ww, f, s) ==
            hi == IF c = 0 THEN Len(h) ELSE c
            g == [f |-> f, s |-> s, c |-> c, ids |-> {j \in s..hi : h[j].f = f}]
        IN IF c = 0 THEN {g} ELSE {g} \cup GroupsFrom(h, ww, f, NextOf(h, f, c))
-RefGroups(h, ww) == UNION {GroupsFrom(h, ww, f, NextOf(h, f, 0)) : f \in Frames \ Bad}
+FramesOf(h) == {h[i].f : i \in DOMAIN h}
+RefGroups(h, ww) == UNION {GroupsFrom(h, ww, f, NextOf(h, f, 0)) : f \in FramesOf(h) \ Bad}
 
 (* emitted records are reference groups, emitted at the arrival that closed *)
 (* them (at = 0: flushed at Close, only open groups); in a settled state    *)
@@ -174,9 +182,9 @@ PropWindow(h, o, ww, settled) ==
 Monotone(h) == \A i \in 1..(Len(h) - 1) : h[i].t <= h[i + 1].t
 PropMono(h, o, ww) ==
   Monotone(h) =>
-    \A i, j \in DOMAIN o : i < j =>
-      /\ Ms(o[i].t) <= Ms(o[j].t)
-      /\ o[i].f = o[j].f => Ms(o[j].t) - Ms(o[i].t) >= ww
+    /\ \A i \in 1..(Len(o) - 1) : Ms(o[i].t) <= Ms(o[i + 1].t)
+    /\ \A i \in DOMAIN o : \A j \in (i + 1)..Len(o) :
+          o[i].f = o[j].f => Ms(o[j].t) - Ms(o[i].t) >= ww
 
 (* ---------------------------------------------------------------------- *)
 (* the invariants of DESIGN 6/C10 over the operational model                *)
